@@ -10,7 +10,7 @@ Actions (plain and generator handlers):
   ['fire', evspec]            fire a new event (ghost parent = the event being handled)
   ['stop']                    event.stop()
   ['flush']                   self.flush()   (nested flush)
-  ['raise']                   raise Boom
+  ['raise'] / ['raise','base'] raise Boom(Exception) / BoomBase(BaseException)
   ['ret', tag]                return a unique non-None value (ends the body)
   ['retnone']                 return None
   ['stopmgr', code]           self.stop(code)          (C08)
@@ -29,6 +29,14 @@ evspec: {'name': str, 'prio': number (default 0), 'flags': {'success','failure',
 
 
 class Boom(Exception):
+    def __init__(self, tag):
+        super().__init__(tag)
+        self.tag = tag
+
+
+class BoomBase(BaseException):
+    """An application exception that does not derive from Exception (like GeneratorExit or asyncio.CancelledError)."""
+
     def __init__(self, tag):
         super().__init__(tag)
         self.tag = tag
@@ -196,6 +204,8 @@ class World:
         elif k == 'raise':
             tag = 'x%d.%d.%d' % (uid, hid, len(self.log))
             self.L('PX', uid, hid, tag)
+            if len(act) > 1 and act[1] == 'base':
+                raise BoomBase(tag)
             raise Boom(tag)
         elif k == 'ret':
             tag = 'v%d.%d.%s' % (uid, hid, act[1])
